@@ -1,6 +1,7 @@
 package world
 
 import (
+	"time"
 	"sort"
 	"bytes"
 	"fmt"
@@ -966,6 +967,7 @@ func genC33(g *Gen, idx int) *Plan {
 	n := int(g.Range(1, 4))
 	used := int64(0)
 	losePing := false
+	alignedAt := int64(0) // when the first Sleep aligned with a ping's retry timer is called (ms after connect)
 	for i := 0; i < n; i++ {
 		k := g.Range(1, 3)
 		delta := []int64{-20, -2, -1, 0, 1, 2, 20, 300}[g.Intn(8)]
@@ -980,10 +982,13 @@ func genC33(g *Gen, idx int) *Plan {
 			if g.Bool(0.5) {
 				// the keep-alive ping of this tick stays unanswered, and the client falls asleep just when
 				// the ping's retry timer comes round (one RetryDelay after the tick, less a round trip)
-				extra := cp.RetryDelayMs - []int64{40, 20, 8, 3, 1, 0}[g.Intn(6)]
+				extra := cp.RetryDelayMs - []int64{40, 20, 8, 3, 2, 1, 1, 0}[g.Intn(8)]
 				gap += extra
 				used += extra
 				losePing = true
+				if alignedAt == 0 {
+					alignedAt = used
+				}
 			}
 			ops = append(ops, ClientOp{GapMs: gap, Op: "sleep", DurMs: d})
 			ops = append(ops, ClientOp{GapMs: 50, Op: "connect"})
@@ -1014,6 +1019,14 @@ func genC33(g *Gen, idx int) *Plan {
 		p.Family += "-late-pingresp"
 		p.Cfg.SN.FIFO = false
 		p.Cfg.SN.Rules = append(p.Cfg.SN.Rules, Rule{Dir: "g2c", Class: "PINGRESP", Count: 1000, Act: "delay", DelayMs: g.Range(30, cp.RetryDelayMs*8/10)})
+	}
+	if alignedAt > 0 && g.Bool(0.6) {
+		// a slow client around that instant: the retry timer fires while the receive loop (or the caller of
+		// Sleep) is between two statements — the whole stall budget goes to these few hundred milliseconds
+		p.Cfg.Sched = simrt.SchedCfg{Density: 0.3 + g.Float()*0.7, Overlap: true, StallProb: 0.25, MaxStall: time.Duration(g.Range(300, 5000)) * time.Microsecond, MaxStalls: 60,
+			Sticky: []float64{0, 0.8, 0.95}[g.Intn(3)], StallAfter: time.Duration(alignedAt-100) * time.Millisecond}
+		// (round trips of the same order as the stalls and the alignment offsets)
+		p.Cfg.SN.MaxLatUs = g.Range(800, 4000)
 	}
 	p.Cfg.HorizonMs = used + 8000 + 3*ka
 	return p
